@@ -51,6 +51,8 @@ Inductive sact :=
 | SHStep (h : Z)        (* the handler serving call / stream h performs its next gated operation *)
 | SC2S | SS2C           (* the oldest in-flight envelope of that direction reaches its reader *)
 | SRelease (t : Z)      (* release user thread t parked at a yield point *)
+| SFailRead             (* the client's transport fails (after the envelopes it has already queued) *)
+| SBlockWrites (b : bool)  (* the client's transport stops / resumes accepting writes (back-pressure) *)
 | SFree.                (* free-running: no gating, the whole history in one step *)
 
 Definition events (steps : list (sact * list hev)) : list hev := flat_map snd steps.
